@@ -75,6 +75,36 @@ def check_closure_before_insert(P, r3):
             r3.bad(V(r3.id, gid, "event-types-not-declared", "%s never inserts the (closed) event payload types into the declared set" % short_path(gid)))
 
 
+def check_harvester_normalisation(S, rule):
+    """sibling agreement: every sanitiser parse_type_structure applies to its input (it re-enters itself for every nested type, so the sanitiser
+    runs at every level) is also applied inside the *recursive* harvester, not only in its non-recursive wrapper; shared by C07-D4 and C09-D4"""
+    pts = S.fn("TypeResolver", "parse_type_structure")
+    rec = S.fn("CommandAnalyzer", "extract_type_names_recursive")
+    if pts is None or rec is None:
+        rule.bad(V(rule.id, "<anchor>", "missing:parser-or-harvester", "anchor not found"))
+        return
+    def sanitiser_calls(fn):
+        out = set()
+        for e in walk_block(fn.body):
+            if e.get("k") == "call" and e["func"].get("k") == "path":
+                name = e["func"]["segs"][-1]
+                for g in S.fns:
+                    if g.name == name and g.body is not None and g.sig.get("ret", "").replace(" ", "") in ("&str", "&'astr") and "type_resolver" in g.file:
+                        out.add(name)
+        return out
+    want = sanitiser_calls(pts)
+    have = sanitiser_calls(rec)
+    selfrec = any(e.get("k") == "mcall" and e["method"] == rec.name for e in walk_block(rec.body))
+    if not selfrec:
+        rule.bad(V(rule.id, "CommandAnalyzer::extract_type_names_recursive", "not-recursive", "the harvester does not recurse into nested types any more: re-anchor"))
+    for w in sorted(want):
+        if w in have:
+            rule.ok("harvester applies %s at every level, like parse_type_structure" % w)
+        else:
+            rule.bad(V(rule.id, "CommandAnalyzer::extract_type_names_recursive", "harvester-misses-normalisation:%s" % w,
+                       "parse_type_structure applies %s to every (nested) type text, the recursive harvester does not: `Vec<crate::m::Zeta>` renders ZetaSchema but records no edge/name for Zeta" % w))
+
+
 def check(ctx):
     P = ctx.P
     S = ctx.S
@@ -270,6 +300,7 @@ def check(ctx):
             r4.bad(V(r4.id, "CommandAnalyzer::extract_type_names_recursive", "naive-comma:%s on %s" % (e["method"], expr_text(e["recv"])), "%s(',') on type text" % e["method"], fn.file, e["ln"]))
         for e in good:
             r4.ok("split_top_level_commas(%s)" % expr_text(e["args"][0]))
+        check_harvester_normalisation(S, r4)
         prefixes = sorted(set(lit_str(e["args"][0]) for e in walk_block(fn.body) if e.get("k") == "mcall" and e["method"] == "starts_with" and e["args"] and lit_str(e["args"][0])))
         need = {"Result<", "Option<", "Vec<", "HashMap<", "BTreeMap<", "HashSet<", "BTreeSet<"}
         if need <= set(prefixes):
